@@ -456,6 +456,7 @@ func (vc *VC) verifyFunction() (err error) {
 func (vc *VC) runOnce() {
 	fn := vc.Fn
 	st := &State{pc: T, locals: map[*ssa.Alloc]Val{}, heap: map[string]string{}}
+	vc.needStr()
 	vc.declare("alloc0", "Int")
 	st.alloc = "alloc0"
 	vc.entryAlloc = "alloc0"
